@@ -62,7 +62,8 @@ type lval struct {
 var values = []lval{
 	{Name: "int200", Kind: "int", I: 200},
 	{Name: "int-1", Kind: "int", I: -1},
-	{Name: "int1500000", Kind: "int", I: 1500000}, // a whole number that JSON delivers as a float and whose %v text is in exponent form
+	{Name: "int1500000", Kind: "int", I: 1500000},       // a whole number that JSON delivers as a float and whose %v text is in exponent form
+	{Name: "int3000000000", Kind: "int", I: 3000000000}, // beyond 32 signed bits (a duration in ns, a byte count): unsigned 32-bit, signed or unsigned 64-bit on the wire
 	{Name: "float1.5", Kind: "float", F: 1.5},
 	{Name: "float2.0", Kind: "float", F: 2.0},
 	{Name: "str-x", Kind: "str", S: "x"},
@@ -130,6 +131,10 @@ func encodings(v lval, level int) []enc {
 	}
 	var all, some, min []variant // msgpack value variants: every width / class representatives / minimal
 	switch {
+	case v.Kind == "int" && v.I >= 1<<31: // does not fit 32 signed bits
+		all = []variant{{lead: codec.Int64}, {lead: codec.Uint32}, {lead: codec.Uint64}}
+		some = []variant{{lead: codec.Int64}, {lead: codec.Uint64}}
+		min = []variant{{lead: codec.Int64}, {lead: codec.Uint32}}
 	case v.Kind == "int" && v.I >= 65536: // needs 32 bits
 		all = []variant{{lead: codec.Int32}, {lead: codec.Int64}, {lead: codec.Uint32}, {lead: codec.Uint64}}
 		some = []variant{{lead: codec.Int32}, {lead: codec.Uint64}}
